@@ -105,8 +105,7 @@ func ruleROEffectFree(c *Ctx) {
 	for _, n := range serverGuardedNames {
 		allGuarded["Server."+n] = true
 	}
-	info := cis.Info()
-	for _, sw := range stringSwitches(cis, func(e ast.Expr) bool { return isCommandCall(info, e) }) {
+	for _, sw := range stringSwitches(cis, func(e ast.Expr) bool { return c.isCommandTag(cis, e) }) {
 		for _, cl := range sw.Clauses {
 			if cl.IsDefault {
 				continue
